@@ -213,7 +213,16 @@ def check(run):
                     continue
                 n_eof += 1
                 g = q.guards_at(fn, n)
-                ok = any(q.cmp_atom(a) and q.cmp_atom(a)[0] == '>' and not pol and q.int_value(q.cmp_atom(a)[2]) == 0 and q.strip_casts(q.cmp_atom(a)[1]).get('dk') == 'local' for a, pol in g)
+                def zero_count(a, pol):
+                    c_ = q.cmp_atom(a)
+                    if not c_:
+                        return False
+                    for lhs_, rhs_, op_ in ((c_[1], c_[2], c_[0]), (c_[2], c_[1], q.SWAP[c_[0]])):
+                        if q.int_value(rhs_) == 0 and q.strip_casts(lhs_).get('dk') == 'local':
+                            eff = op_ if pol else q.NEG[op_]
+                            return eff in ('==', '<=')      # the count gathered so far is zero, however the test is spelled
+                    return False
+                ok = any(zero_count(a, pol) for a, pol in g)
                 run.check(ok, 'R5', 'eof-after-data', '%s: ec = packet.ec' % fn.norm, fn.loc(n),
                           'the EOF/error of a queued marker is reported although bytes gathered in this call (or still queued ahead of it) have not been delivered: no dominating (count > 0)==false guard',
                           'dominated by the false edge of (<bytes gathered> > 0)')
